@@ -403,16 +403,21 @@ pub fn strftime(ts: time::OffsetDateTime, fmt: &str) -> Result<String, DateForma
                 let nanos = ts.nanosecond();
                 let digits = padding.unwrap_or(if fmt_char == 'L' { 3 } else { 9 });
 
-                w!(
-                    output,
-                    "{:0<width$}",
-                    if digits <= 9 {
-                        nanos / 10u32.pow(9 - digits as u32)
-                    } else {
-                        nanos
-                    },
-                    width = digits
-                );
+                if digits <= 9 {
+                    // the leading `digits` digits of the nine-digit fraction
+                    w!(
+                        output,
+                        "{:0>width$}",
+                        nanos / 10u32.pow(9 - digits as u32),
+                        width = digits
+                    );
+                } else {
+                    // all nine digits, then zeros to the right
+                    w!(output, "{:09}", nanos);
+                    for _ in 9..digits {
+                        output.push('0');
+                    }
+                }
 
                 continue;
             }
